@@ -29,6 +29,7 @@ func runC20(c *Ctx) {
 	c20Retire(c)
 	c20Bounded(c)
 	c20Gate(c)
+	c20Recheck(c)
 }
 
 // back-edge check: from start, is the loop head (any block in heads) reachable
@@ -270,6 +271,8 @@ func c20Suppress(c *Ctx) {
 			nm := cal.Name()
 			switch {
 			case nm == "Warnln" || nm == "Warnf" || nm == "Infoln" || nm == "restoreRejectedReloadProgress":
+			case nm == "Load" || nm == "clearRejectedReloadProgress":
+				// reading a flag, and erasing the refused request's own busy report (C20/REFUSAL re-check), change nothing else
 			default:
 				effects = append(effects, nm+"@"+c.pos(call.Pos()))
 			}
@@ -278,7 +281,7 @@ func c20Suppress(c *Ctx) {
 	}}
 	w.Run(core.Point{B: refusal, I: 0})
 	okRet, _ := onlyReturns(g, core.Point{B: refusal, I: 0}, "false")
-	c.R.Checkf("REFUSAL", "refusal-effect-free", c.pos(cas[0].Cond.Pos()), len(effects) == 0 && okRet, "on the refused edge the only calls are logging and the busy report, and false is returned; other effects: %v", effects)
+	c.R.Checkf("REFUSAL", "refusal-effect-free", c.pos(cas[0].Cond.Pos()), len(effects) == 0 && okRet, "on the refused edge the only calls are logging, the busy report, reads of the flags and the erase of that same report; false is returned; other effects: %v", effects)
 	if rf := c.fn("REFUSAL", "cmd", "restoreRejectedReloadProgress"); rf != nil {
 		var eff []string
 		core.EachCall(rf.Body, core.Deep, func(call *ast.CallExpr) {
